@@ -1,7 +1,7 @@
 SPECIFICATION Spec
-CONSTANTS MaxRecs = 2 MaxCalls = 2 MaxRuns = 2 CommitBeforeReturn = TRUE TolerantVersionRead = TRUE
+CONSTANTS MaxRecs = 2 MaxCalls = 3 MaxRuns = 2 CommitBeforeReturn = TRUE TolerantVersionRead = TRUE
           AtomicUpgrade = TRUE Legacy = FALSE MaxBatches = 1 GateResetOnError = TRUE ReloadWait = 0 MaxDepth = 1 EnterKeepsPending = TRUE ParentFirst = TRUE
-CONSTANTS MaxVers = 2 TokenConflict = "ignore" MaxFaults = 1 CommitErrorRaises = TRUE
+CONSTANTS MaxVers = 2 TokenConflict = "ignore" MaxFaults = 2 CommitErrorRaises = TRUE
 INVARIANT TypeOK
 INVARIANT AckedUnchanged
 INVARIANT AckedDurable
